@@ -81,7 +81,7 @@ func genReach(t *rapid.T, kinds []string) ReachCase {
 				op = ReachOp{K: RMeasure}
 			}
 		case k <= 15:
-			op = ReachOp{K: RIters, N: rapid.IntRange(1, MaxReachIters).Draw(t, "its"), Stride: rapid.IntRange(0, n).Draw(t, "spacing")}
+			op = ReachOp{K: RIters, N: rapid.OneOf(rapid.IntRange(1, 3), rapid.IntRange(1, 8), rapid.IntRange(1, MaxReachIters)).Draw(t, "its"), Stride: rapid.IntRange(0, n).Draw(t, "spacing")}
 		case k <= 17:
 			op = ReachOp{K: RAdv, N: op.N}
 		default:
@@ -99,7 +99,7 @@ func genReach(t *rapid.T, kinds []string) ReachCase {
 	case 1, 2: // fill, thin out
 		ops = append(ops, ReachOp{K: RAdd, N: n})
 		if isMap && rapid.Bool().Draw(t, "parkIterators") {
-			ops = append(ops, ReachOp{K: RIters, N: rapid.IntRange(1, MaxReachIters).Draw(t, "its"), Stride: rapid.IntRange(0, n/4).Draw(t, "spacing")})
+			ops = append(ops, ReachOp{K: RIters, N: rapid.OneOf(rapid.IntRange(1, 3), rapid.IntRange(1, 8), rapid.IntRange(1, MaxReachIters)).Draw(t, "its"), Stride: rapid.IntRange(0, n/4).Draw(t, "spacing")})
 		}
 		ops = append(ops, ReachOp{K: RThin, N: n, Stride: stride.Draw(t, "stride"), Off: rapid.IntRange(0, 70).Draw(t, "off"), Rev: rapid.Bool().Draw(t, "rev")})
 	case 3: // fill, clear, use again
